@@ -34,6 +34,8 @@ type Case struct {
 	Bystanders bool
 	// Abandon: see abandonOne
 	Abandon bool
+	// FullSweep: every (column,value) pair is probed, none strided over
+	FullSweep bool
 }
 
 func (c *Case) Summary() string {
@@ -133,7 +135,11 @@ func oracle(c *Case) error {
 					}
 				}
 			}
-			perr := fix.ProbeAll(idx, d, fix.ProbeOpts{Unique: uniq, Extra: extra, ExtraGB: gbs})
+			po := fix.ProbeOpts{Unique: uniq, Extra: extra, ExtraGB: gbs}
+			if c.FullSweep {
+				po.MaxValues = 1 << 30
+			}
+			perr := fix.ProbeAll(idx, d, po)
 			cerr := fix.Safe(idx.Close)
 			if perr != nil {
 				return fmt.Errorf("writer %s, open #%d (%s): %v", fix.WriterName[w], k, oc, perr)
@@ -245,6 +251,14 @@ func drawCase(t *rapid.T, o gen.DataOpts) *Case {
 		c.Extra = append(c.Extra, pool.Expr(t, gen.UnknownSometimes(t)))
 	}
 	return c
+}
+
+// manyValues: more than 65,536 distinct values in one column, every one of
+// them probed, on-demand and preloaded, for every writer.
+func manyValues(t *testing.T, n int) {
+	spec := gen.DataSpec{Recipe: &gen.Recipe{N: n, Cols: []gen.ColSpec{
+		{Name: "u", Prefix: "r", Kind: gen.KUnique}, {Name: "g", Kind: gen.KMod, K: 3, Prefix: "p"}}}}
+	run(t, &Case{Data: spec, FullSweep: true, Reopens: []fix.OpenCfg{{CacheCap: -1}, {Preload: true, CacheCap: -1}}})
 }
 
 func prelude(t *testing.T, sizes []int) {
@@ -390,6 +404,9 @@ func TestQuick(t *testing.T) {
 		fix.Pinned(t, prop, replay)
 		prelude(t, []int{0, 1, 2, 999, 1000, 1001, 1002, 2001, 3001, 4097})
 	}
+	if shard, _ := evid.Shard(); shard == 1 {
+		manyValues(t, 70001)
+	}
 	fix.Check(t, "explicit", 100, func(rt *rapid.T) { run(rt, drawCase(rt, gen.DataOpts{MaxRows: 40})) })
 	fix.Check(t, "recipe", 10, func(rt *rapid.T) {
 		run(rt, drawCase(rt, gen.DataOpts{MaxRecipeN: 12000, RecipeProb: 100, Unique: true}))
@@ -402,6 +419,10 @@ func TestThorough(t *testing.T) {
 	if shard == 0 {
 		fix.Pinned(t, prop, replay)
 		prelude(t, []int{0, 1, 2, 999, 1000, 1001, 1002, 2000, 2001, 3001, 4097, 65537})
+	}
+	if shard == 1 {
+		manyValues(t, 70001)
+		manyValues(t, 140003)
 	}
 	fix.Check(t, "explicit", 300, func(rt *rapid.T) { run(rt, drawCase(rt, gen.DataOpts{MaxRows: 60})) })
 	fix.Check(t, "recipe", 30, func(rt *rapid.T) {
